@@ -26,13 +26,13 @@ def run(ctx, rep):
     rep.not_decided = 'behaviour of the target compilers (depth/width limits); whether Swift Unicode.Scalar is Codable.'
     rep.trusted = ['syn', 'astq evaluator', 'rules/c05_primitives.json (target-language capacities)', "serde's transparent smart-pointer set as restated by the property"]
     T = emit.Types(ctx.astq)
-    t1(ctx, rep, T)
-    t2(ctx, rep, T)
-    t3(ctx, rep, T)
-    t45(ctx, rep, T)
-    t6(ctx, rep, T)
-    t8(ctx, rep, T)
-    wiring.backend_wiring(ctx, rep, 'T7', only_fields={'type_mappings'})
+    rep.section(t1, ctx, rep, T)
+    rep.section(t2, ctx, rep, T)
+    rep.section(t3, ctx, rep, T)
+    rep.section(t45, ctx, rep, T)
+    rep.section(t6, ctx, rep, T)
+    rep.section(t8, ctx, rep, T)
+    rep.section(wiring.backend_wiring, ctx, rep, 'T7', only_fields={'type_mappings'})
 
 
 def t8(ctx, rep, T):
